@@ -81,6 +81,7 @@ def showPy : PyRes → String
   | .raises .zeroDivision => "raise:ZeroDivisionError"
   | .raises .valueError => "raise:ValueError"
   | .raises .typeError => "raise:TypeError"
+  | .raises .overflowError => "raise:OverflowError"
   | .notModelled => "notmodelled"
 
 def step (line : String) : String :=
